@@ -420,6 +420,30 @@ def install(world):
         return SInt(uf('getsizeof', S.Val, z3.IntSort())(S.box_any(x)))
     world.lib[('sys', 'getsizeof')] = Model('sys.getsizeof', sys_getsizeof)
 
+    def m_floor(x):
+        if isinstance(x, SReal):
+            return SInt(z3.ToInt(x.t))
+        if isinstance(x, (SInt, int)):
+            return x
+        import math
+        return math.floor(x)
+    world.lib[('math', 'floor')] = Model('math.floor', m_floor)
+
+    def b_pow(*a):
+        if not any(S.is_sym(x) for x in a):
+            return pow(*a)
+        return apply_uf('py.pow', a, 'Val')
+    reg('pow', b_pow)
+
+    def b_round(x, nd=0):
+        if not S.is_sym(x) and not S.is_sym(nd):
+            return round(x, nd)
+        return apply_uf('py.round', (x, nd), 'Val')
+    reg('round', b_round)
+
+    def b_hex(x):
+        return apply_uf('py.hex', (x,), 'Str') if S.is_sym(x) else hex(x)
+    reg('hex', b_hex)
     # --------------------------------------------------- itertools ----
     def it_islice(it, node, x, *a):
         a = list(a)
